@@ -9,7 +9,7 @@ SP = os.path.join(V.SPEC, 'avoid')
 
 def gen_histories(d, n, hlen, steps, seed, quick):
     cfg = os.path.join(d, 'histgen.cfg')
-    open(cfg, 'w').write('SPECIFICATION Spec\nCONSTANTS\n ShapeIds = {1, 2, 3}\n ConnIds = {1, 2}\n HLEN = %d\n MAXSTEPS = %d\nINVARIANTS EmitHist\nCHECK_DEADLOCK FALSE\n' % (hlen, steps))
+    open(cfg, 'w').write('SPECIFICATION Spec\nCONSTANTS\n ShapeIds = {1, 2, 3}\n ConnIds = {1, 2}\n HLEN = %d\n MAXSTEPS = %d\n PACE = 3\nINVARIANTS EmitHist\nCHECK_DEADLOCK FALSE\n' % (hlen, steps))
     r = V.tlc(os.path.join(SP, 'RouterApiMC.tla'), cfg, timeout=600, simulate='num=%d' % (n * 2), extra=['-depth', str(hlen + 2)], seedv=seed, workers=4)
     hs = V.emitted_histories(r.out)
     rnd = random.Random(seed)
@@ -80,15 +80,15 @@ def main(tier):
     d = V.rundir('c06')
     # ---- design level: the queue rules for every interleaving
     cfgm = os.path.join(d, 'mc.cfg')
-    open(cfgm, 'w').write('SPECIFICATION Spec\nCONSTANTS\n ShapeIds = {1, 2}\n ConnIds = {1}\n HLEN = %d\n MAXSTEPS = %d\nINVARIANTS QueueWellFormed SceneIsWhatWasAskedFor\nVIEW View\nCHECK_DEADLOCK FALSE\n'
+    open(cfgm, 'w').write('SPECIFICATION Spec\nCONSTANTS\n ShapeIds = {1, 2}\n ConnIds = {1}\n HLEN = %d\n MAXSTEPS = %d\n PACE = 0\nINVARIANTS QueueWellFormed SceneIsWhatWasAskedFor\nVIEW View\nCHECK_DEADLOCK FALSE\n'
                           % ((4, 2) if quick else (5, 3)))
     r = V.tlc(os.path.join(SP, 'RouterApiMC.tla'), cfgm, timeout=2400, mem='24g')
     ev.add_tlc('design: RouterApiMC, every interleaving of add/move/delete/move-endpoint/process/setTransactionUse', r)
     if r.violated:
         vd.violation('design:' + r.violated[0], 'RouterApi violates %s at design level' % r.violated[0], {'tlc_tail': r.out[-5000:]})
     # ---- B1: histories from the specification
-    nh = 400 if quick else 6000
-    hists, rg = gen_histories(d, nh, 10 if quick else 16, 5 if quick else 8, V.seed(), quick)
+    nh = 2500 if quick else 20000
+    hists, rg = gen_histories(d, nh, 14 if quick else 18, 7 if quick else 9, V.seed(), quick)
     ev.add_tlc('history generation (simulation of RouterApiMC)', rg)
     rnd = random.Random(V.seed())
     hf = os.path.join(d, 'hists.txt')
